@@ -22,8 +22,9 @@ from collections import Counter
 from pathlib import Path
 
 ROOT = Path(__file__).resolve().parent.parent
-REPO_PKG = "/repo/droplets"
-MAX_NEW_SIGNATURES = 3  # per run: how many unlisted signatures are minimised + reported
+REPO_ROOT = os.environ.get("VF_REPO_OVERRIDE", "/repo")
+REPO_PKG = REPO_ROOT + "/droplets"
+MAX_NEW_SIGNATURES = int(os.environ.get("VF_MAX_NEW", "3"))  # per run: unlisted signatures minimised + reported
 
 
 class HarnessError(Exception):
@@ -139,7 +140,7 @@ def exception_signature(exc: BaseException) -> str | None:
             inner = fr
     if inner is None:
         return None
-    mod = os.path.relpath(inner.filename, "/repo")
+    mod = os.path.relpath(inner.filename, REPO_ROOT)
     return f"exc:{type(exc).__name__}@{mod}:{inner.name}"
 
 
@@ -363,8 +364,8 @@ def replay_files(pid: str):
 
 
 def write_replay(pid, spec, signature, message) -> Path:
-    d = ROOT / "replays"
-    d.mkdir(exist_ok=True)
+    d = Path(os.environ.get("VF_REPLAY_OUT", ROOT / "replays"))
+    d.mkdir(exist_ok=True, parents=True)
     sha = hashlib.sha256(canon(spec).encode()).hexdigest()[:8]
     path = d / f"{pid}-{sha}.json"
     path.write_text(
@@ -473,7 +474,7 @@ def run_check(pid: str, tier: str, seed: int) -> int:
     if violations:
         for sig, msg, path in violations:
             print(f"  signature={sig} count={total.fail_counts[sig]} {msg}")
-            print(f"VIOLATION property={pid} replay={os.path.relpath(path, ROOT)}")
+            print(f"VIOLATION property={pid} replay={os.path.relpath(path, ROOT) if str(path).startswith(str(ROOT)) else path}")
         if len(new) > len(violations):
             print(f"  (+{len(new) - len(violations)} further unlisted signatures: {sorted(new)[:10]})")
         return 1
@@ -510,8 +511,8 @@ def write_evidence(prop, tier, seed, total: Stats, replayed, excluded, n_new, wa
         "wall_s": round(wall, 2),
         "violations": n_new,
     }
-    d = ROOT / "evidence"
-    d.mkdir(exist_ok=True)
+    d = Path(os.environ.get("VF_EVIDENCE_DIR", ROOT / "evidence"))
+    d.mkdir(exist_ok=True, parents=True)
     text = json.dumps(ev, indent=1, default=_json_default) + "\n"
     (d / f"{prop.id}.json").write_text(text)
     try:
